@@ -177,7 +177,7 @@ theorem gapT_insertAfter_eval {Z : Forest} {q b : Nat} {vq : Value} {l0 r0 : Lis
   rw [insertAfter_unfold, hpar, hsc, hsr, hnext, hnb, hrc]
   simp only [Bool.not_true, Bool.false_eq_true, if_false, Bool.false_and]
   unfold insertAfterTail
-  rw [Forest.addConsolidate_prev hc htb htP]
+  rw [Forest.addConsolidate_prev hc htb htP _ (Ne.symm hbP)]
   simp
 
 /-- No merge at the old place of a node whose previous sibling is not text. -/
